@@ -10,6 +10,8 @@ structure Rel (k : Kind) (w : Watch) (f : Fut) : Prop where
   runs : w.runs = f.runs
   done : k.isTask = true → w.done = !f.alive
   sink : k.sinking = true → f.subs = []
+  perf : w.perf = f.perf
+  statsOk : w.statsOk = f.statsOk
 
 /-- a subscriber called with a future that holds `o` makes exactly the notification the property asks for -/
 theorem notifyOne_of_out (f : Fut) (o : Outc) (h : f.out = some o) (s : Sub) : notifyOne f s = notif o s := by
@@ -45,7 +47,7 @@ theorem notifiedAll_self (subs : List Sub) (o : Outc) :
 @[simp] theorem hasSub_nil (j : Nat) : hasSub [] j = false := rfl
 @[simp] theorem eraseSub_nil (j : Nat) : eraseSub [] j = [] := rfl
 
-theorem rel_init (k : Kind) : Rel k (watchInit k) (init k) := by
+theorem rel_init (k : Kind) (c : Cfg := {}) : Rel k (watchInit k c) (init k c) := by
   cases k <;> constructor <;> simp [watchInit, init, Kind.sinking, Kind.isTask]
 
 local macro "rel_fields" : tactic => `(tactic| (constructor <;> (try simp_all [Kind.sinking, Kind.isTask])))
@@ -53,81 +55,103 @@ local macro "rel_close" : tactic => `(tactic| first | (refine ⟨_, rfl, ?_⟩; 
 
 local macro "rel_step_tac" : tactic => `(tactic| (
   cases hk : (‹Fut›).kind <;> cases ho : (‹Fut›).out <;> cases ha : (‹Fut›).alive <;>
+    cases hpp : (‹Fut›).perf <;> cases hii : (‹Fut›).statsOk <;>
     simp_all [watchStep, observe, step, compute, complete_eq, readOk, freshReadOk, computeOk, Kind.natural, Kind.isTask,
-      readValue, readError, Kind.sinking, notifiedAll_self] <;>
+      readValue, readError, Kind.sinking, notifiedAll_self, hookExc, hookFails, setRes, setResOk, hookMay] <;>
     (try rel_close)))
 
 theorem rel_step_value (k : Kind) (w : Watch) (f : Fut) (h : Rel k w f) :
     ∃ w', watchStep k w (observe f .value).2 = .ok w' ∧
       Rel k { w' with runs := (observe f .value).2.runs } (observe f .value).1 := by
-  obtain ⟨hk, hkn, hs, hr, hb, hsink⟩ := h
+  obtain ⟨hk, hkn, hs, hr, hb, hsink, hpf, hid⟩ := h
   subst hk
   rel_step_tac
 
 theorem rel_step_error (k : Kind) (w : Watch) (f : Fut) (h : Rel k w f) :
     ∃ w', watchStep k w (observe f .error).2 = .ok w' ∧
       Rel k { w' with runs := (observe f .error).2.runs } (observe f .error).1 := by
-  obtain ⟨hk, hkn, hs, hr, hb, hsink⟩ := h
+  obtain ⟨hk, hkn, hs, hr, hb, hsink, hpf, hid⟩ := h
   subst hk
   rel_step_tac
 
 theorem rel_step_call (k : Kind) (w : Watch) (f : Fut) (h : Rel k w f) :
     ∃ w', watchStep k w (observe f .call).2 = .ok w' ∧
       Rel k { w' with runs := (observe f .call).2.runs } (observe f .call).1 := by
-  obtain ⟨hk, hkn, hs, hr, hb, hsink⟩ := h
+  obtain ⟨hk, hkn, hs, hr, hb, hsink, hpf, hid⟩ := h
   subst hk
   rel_step_tac
 
 theorem rel_step_isComputed (k : Kind) (w : Watch) (f : Fut) (h : Rel k w f) :
     ∃ w', watchStep k w (observe f .isComputed).2 = .ok w' ∧
       Rel k { w' with runs := (observe f .isComputed).2.runs } (observe f .isComputed).1 := by
-  obtain ⟨hk, hkn, hs, hr, hb, hsink⟩ := h
+  obtain ⟨hk, hkn, hs, hr, hb, hsink, hpf, hid⟩ := h
   subst hk
   rel_step_tac
 
 theorem rel_step_setValue (k : Kind) (w : Watch) (f : Fut) (v : Nat) (h : Rel k w f) :
     ∃ w', watchStep k w (observe f (.setValue v)).2 = .ok w' ∧
       Rel k { w' with runs := (observe f (.setValue v)).2.runs } (observe f (.setValue v)).1 := by
-  obtain ⟨hk, hkn, hs, hr, hb, hsink⟩ := h
+  obtain ⟨hk, hkn, hs, hr, hb, hsink, hpf, hid⟩ := h
   subst hk
   rel_step_tac
 
 theorem rel_step_setError (k : Kind) (w : Watch) (f : Fut) (e : Nat) (h : Rel k w f) :
     ∃ w', watchStep k w (observe f (.setError e)).2 = .ok w' ∧
       Rel k { w' with runs := (observe f (.setError e)).2.runs } (observe f (.setError e)).1 := by
-  obtain ⟨hk, hkn, hs, hr, hb, hsink⟩ := h
+  obtain ⟨hk, hkn, hs, hr, hb, hsink, hpf, hid⟩ := h
   subst hk
   rel_step_tac
 
 theorem rel_step_setErrorNone (k : Kind) (w : Watch) (f : Fut) (h : Rel k w f) :
     ∃ w', watchStep k w (observe f .setErrorNone).2 = .ok w' ∧
       Rel k { w' with runs := (observe f .setErrorNone).2.runs } (observe f .setErrorNone).1 := by
-  obtain ⟨hk, hkn, hs, hr, hb, hsink⟩ := h
+  obtain ⟨hk, hkn, hs, hr, hb, hsink, hpf, hid⟩ := h
   subst hk
   rel_step_tac
 
 theorem rel_step_reset (k : Kind) (w : Watch) (f : Fut) (h : Rel k w f) :
     ∃ w', watchStep k w (observe f .reset).2 = .ok w' ∧
       Rel k { w' with runs := (observe f .reset).2.runs } (observe f .reset).1 := by
-  obtain ⟨hk, hkn, hs, hr, hb, hsink⟩ := h
+  obtain ⟨hk, hkn, hs, hr, hb, hsink, hpf, hid⟩ := h
   subst hk
   rel_step_tac
 
 theorem rel_step_subscribe (k : Kind) (w : Watch) (f : Fut) (i : Nat) (r : Beh) (h : Rel k w f) :
     ∃ w', watchStep k w (observe f (.subscribe i r)).2 = .ok w' ∧
       Rel k { w' with runs := (observe f (.subscribe i r)).2.runs } (observe f (.subscribe i r)).1 := by
-  obtain ⟨hk, hkn, hs, hr, hb, hsink⟩ := h
+  obtain ⟨hk, hkn, hs, hr, hb, hsink, hpf, hid⟩ := h
   subst hk
   rel_step_tac
 
 theorem rel_step_unsubscribe (k : Kind) (w : Watch) (f : Fut) (i : Nat) (h : Rel k w f) :
     ∃ w', watchStep k w (observe f (.unsubscribe i)).2 = .ok w' ∧
       Rel k { w' with runs := (observe f (.unsubscribe i)).2.runs } (observe f (.unsubscribe i)).1 := by
-  obtain ⟨hk, hkn, hs, hr, hb, hsink⟩ := h
+  obtain ⟨hk, hkn, hs, hr, hb, hsink, hpf, hid⟩ := h
   subst hk
   cases hh : hasSub f.subs i <;> cases hk : f.kind <;> cases ho : f.out <;>
     simp_all [watchStep, observe, step, unsubStep, Kind.sinking] <;>
     (try rel_close)
+
+theorem rel_step_option (k : Kind) (w : Watch) (f : Fut) (d : DbgOpt) (on : Bool) (h : Rel k w f) :
+    ∃ w', watchStep k w (observe f (.option d on)).2 = .ok w' ∧
+      Rel k { w' with runs := (observe f (.option d on)).2.runs } (observe f (.option d on)).1 := by
+  obtain ⟨hk, hkn, hs, hr, hb, hsink, hpf, hid⟩ := h
+  subst hk
+  cases d <;> rel_step_tac
+
+theorem rel_step_raiseIfError (k : Kind) (w : Watch) (f : Fut) (h : Rel k w f) :
+    ∃ w', watchStep k w (observe f .raiseIfError).2 = .ok w' ∧
+      Rel k { w' with runs := (observe f .raiseIfError).2.runs } (observe f .raiseIfError).1 := by
+  obtain ⟨hk, hkn, hs, hr, hb, hsink, hpf, hid⟩ := h
+  subst hk
+  rel_step_tac
+
+theorem rel_step_inspect (k : Kind) (w : Watch) (f : Fut) (h : Rel k w f) :
+    ∃ w', watchStep k w (observe f .inspect).2 = .ok w' ∧
+      Rel k { w' with runs := (observe f .inspect).2.runs } (observe f .inspect).1 := by
+  obtain ⟨hk, hkn, hs, hr, hb, hsink, hpf, hid⟩ := h
+  subst hk
+  rel_step_tac
 
 theorem rel_step (k : Kind) (w : Watch) (f : Fut) (op : Op) (h : Rel k w f) :
     ∃ w', watchStep k w (observe f op).2 = .ok w' ∧
@@ -143,6 +167,9 @@ theorem rel_step (k : Kind) (w : Watch) (f : Fut) (op : Op) (h : Rel k w f) :
   | reset => exact rel_step_reset k w f h
   | subscribe i r => exact rel_step_subscribe k w f i r h
   | unsubscribe i => exact rel_step_unsubscribe k w f i h
+  | option d on => exact rel_step_option k w f d on h
+  | raiseIfError => exact rel_step_raiseIfError k w f h
+  | inspect => exact rel_step_inspect k w f h
 
 theorem watchRun_ok (k : Kind) (ops : List Op) (w : Watch) (f : Fut) (h : Rel k w f) :
     ∃ w', watchRun k w (run f ops) = .ok w' := by
@@ -214,6 +241,8 @@ def stableRes (o : Outc) (subs : List Sub) (sinking : Bool) : Op → Res
   | .reset => .unit
   | .subscribe _ _ => .unit
   | .unsubscribe j => if sinking || hasSub subs j then .unit else .raised .notSubscribed
+  | .option _ _ | .inspect => .unit
+  | .raiseIfError => raiseRes o
 
 /-- one operation other than `reset_unsafe()` on a computed future: outcome, run counter and kind unchanged, nobody
     notified, the answer is the report of the outcome (reads) / FutureIsAlreadyComputed (sets) -/
